@@ -605,7 +605,7 @@ private:
                                 ++stream_pos;
 
                                 *dst_it++ = this->_palette[ packed_indices >> 4 ];
-                                if( ++i == second )
+                                if( ++i == count ) // count has been clamped to the row, second has not
                                     break;
 
                                 *dst_it++ = this->_palette[ packed_indices & 0x0f ];
